@@ -202,7 +202,12 @@ def _run_batch(args):
         shutil.copy(os.path.join(tlc.SPEC_DIR, "Relay_Trace.tla"), os.path.join(wd.path, "Relay_Trace.tla"))
         cfg = wd.write("Relay_Trace.cfg", TRACE_CFG)
         res = tlc.run_tlc(wd, "Relay_Trace", cfg, workers=1, timeout=timeout, heap="3g")
-    verdicts = {obj["tid"]: obj for obj in tlc.printed_json(res["out"])}
+    # where the trace specification has to guess something the log does not show (which of two connections' commits made an
+    # event visible) TLC follows every guess and prints one verdict per end state: a trace is explained if one of them explains it
+    verdicts = {}
+    for obj in tlc.printed_json(res["out"]):
+        if obj["tid"] not in verdicts or len(obj["bad"]) < len(verdicts[obj["tid"]]["bad"]):
+            verdicts[obj["tid"]] = obj
     stats = tlc.parse_stats(res["out"])
     ok = res["rc"] == 0 and stats is not None and len(verdicts) == ntraces
     return {"ok": ok, "verdicts": verdicts, "stats": stats, "out": res["out"] if not ok else "", "wall_s": res["wall_s"]}
